@@ -495,7 +495,7 @@ def cells(ctx, bits):
             for idx in [[k] for k in ks] + [[k, k2] for k in ks for k2 in (("str", "k"), ("int", 1), ("int", 2), ("int", -1))]:
                 if kind == "assign" and n is not None and idx[0][0] == "int" and idx[0][1] > n + 1:
                     continue          # null-gap: outside the model
-                if kind == "assign" and len(idx) == 2 and idx[1] == ("int", 2) and not (init[0] == "arrlit" and idx[0] == ("int", 3) and n == 3):
+                if kind == "assign" and len(idx) == 2 and idx[1] == ("int", 2) and not (init is inits[2] and idx[0] in (("int", 3), ("int", -1))):
                     continue          # second-level index 2 on a fresh/one-element array: null-gap
                 name = "g%d" % (len(fns) + len(alone))
                 st = ("assign", ("local", "xs"), idx, ("int", 5), False) if kind == "assign" else ("unset", ("local", "xs"), idx)
